@@ -33,16 +33,18 @@ Theorem c19_epoch_cap : forall now calc bal g g' bal' paid,
 Proof. exact epoch_cap. Qed.
 Print Assumptions c19_epoch_cap.
 
-(* the same for a swap-fee gauge: the epoch's allocation is the deposit it has accumulated; it
-   books at most that; outside class C19-F2 what is paid is booked *)
+(* the same for a swap-fee gauge (no class excluded since fix C19-F2): the epoch's allocation is the
+   deposit it has accumulated; it books at most that and pays at most what it books; custody moves
+   by exactly what was paid and what the fee transfer brought in.  Either the distribution fails and
+   nothing happens, or the fee transfer fails and the distribution stays booked (deposit reduced,
+   epoch not counted), or both succeed *)
 Theorem c19_epoch_cap_swapfee : forall calc recv bal g g' bal' paid,
   g_swap g = true -> 0 <= g_deposit g -> trigger_swap calc recv bal g = Ok (g', bal', paid) ->
-  kf_C19_2 calc recv g = false ->
-  0 <= pay_total paid <= g_distributed g' - g_distributed g /\
-  g_distributed g' - g_distributed g <= g_deposit g /\
-  ((g' = g /\ bal' = bal) \/
-   exists r, recv = Ok r /\ g_triggered g' = g_triggered g + 1 /\
-             g_deposit g' = g_deposit g - (g_distributed g' - g_distributed g) + r /\ bal' = bal - pay_total paid + r).
+  let d := g_distributed g' - g_distributed g in
+  0 <= pay_total paid <= d /\ d <= g_deposit g /\ bal' = bal - pay_total paid + (g_deposit g' - (g_deposit g - d)) /\
+  ((g' = g /\ paid = []) \/
+   (is_ok recv = false /\ g_triggered g' = g_triggered g /\ g_deposit g' = g_deposit g - d) \/
+   (exists r, recv = Ok r /\ g_triggered g' = g_triggered g + 1 /\ g_deposit g' = g_deposit g - d + r)).
 Proof. exact epoch_cap_swapfee. Qed.
 Print Assumptions c19_epoch_cap_swapfee.
 
@@ -75,39 +77,50 @@ Theorem c19_exhausted : forall now calc bal g g' bal' paid, g_triggered g = g_to
 Proof. exact trigger_exhausted. Qed.
 Print Assumptions c19_exhausted.
 
-(* custody: after every history (several gauges incl. swap-fee gauges, several external locker /
-   vault / lend programs, several denoms, any block times, any environment) that meets none of the
-   classes C19-F2, C19-F3, C19-F4, the rewards module account holds, in every denom, at least the remainders of
-   ALL gauges plus the available rewards of ALL programs (hence of the active ones: the predicate
-   the harness evaluates on the implementation holds on the model) *)
+(* custody, NO class excluded: after every history of gauge creations (incl. swap-fee gauges), locker
+   and vault program creations, BeginBlockers at any times with any well-formed environment (failing
+   fee transfers, failing farming calculations, program steps that panic and are rolled back by their
+   own wrapper, any amounts and populations), and other credits, in several denoms, the rewards
+   module account holds at least the remainders of ALL gauges plus the available rewards of ALL
+   programs (hence of the active ones: the predicate the harness evaluates on the implementation).
+   Well-formed (op_wf): a fee transfer hands over a non-negative coin; the owners' balances of a
+   program are non-negative and add up to at most the recorded total *)
+Theorem c19_custody_gauges_programs : forall ops d, forallb op_wf ops = true -> forallb no_lend_op ops = true ->
+  let s := rrun rinit ops in
+  owed d s <= r_bal s d /\ holds_C19_custody d (r_bal s d) (r_gauges s) (r_exts s) = true.
+Proof. exact custody_no_lend. Qed.
+Print Assumptions c19_custody_gauges_programs.
+
+(* custody with lend programs: every history that does not meet class C19-F4 (run_clean) *)
 Theorem c19_custody : forall ops d, forallb op_wf ops = true -> run_clean rinit ops = true ->
   let s := rrun rinit ops in
   owed d s <= r_bal s d /\ holds_C19_custody d (r_bal s d) (r_gauges s) (r_exts s) = true.
 Proof. exact custody_clean. Qed.
 Print Assumptions c19_custody.
 
-(* class C19-F3 delimited by inputs: a program step cannot overdraw when the owners' balances are
-   non-negative and add up to at most the recorded total (DepositedAmount / TokenMintedAmount) and
-   4 * owners * available <= 10^18 (so: below about 2.5 * 10^17 / owners base units) *)
-Theorem c19_program_safe : forall now e x, ext_safe e x = true -> kf_C19_3 now e x = false.
-Proof. exact ext_safe_no_overdraw. Qed.
+(* a locker / vault program never books more than it has left (fix C19-F3; before it the bound needed
+   4 * owners * available <= 10^18): any amounts, any number of owners, any days left, provided the
+   owners' balances are non-negative and add up to at most the recorded total; what the owners
+   receive is at most what is booked and custody falls by exactly what they receive *)
+Theorem c19_program_safe : forall now e bal x x' bal' paid,
+  ext_tick now e bal x = Ok (x', bal', paid) -> xenv_wf e = true -> 0 <= x_avail x ->
+  0 <= x_avail x' <= x_avail x /\ 0 <= pay_total paid <= x_avail x - x_avail x' /\ bal' = bal - pay_total paid /\
+  (0 <= bal -> 0 <= bal') /\ x_denom x' = x_denom x /\ x_kind x' = x_kind x.
+Proof. exact ext_tick_wf. Qed.
 Print Assumptions c19_program_safe.
 
-(* known finding C19-F2: a swap-fee gauge holding 500 whose fee transfer fails pays the 500 at every
-   epoch; after two epochs the account holds 500 against remainders of 1500 *)
-Theorem c19_custody_swapfee_refuted : exists ops d, forallb op_wf ops = true /\ run_clean rinit ops = false /\
-  let s := rrun rinit ops in
-  r_bal s d < owed d s /\ holds_C19_custody d (r_bal s d) (r_gauges s) (r_exts s) = false.
-Proof. exact custody_swapfee_refuted. Qed.
-Print Assumptions c19_custody_swapfee_refuted.
-
-(* known finding C19-F3: six equal lockers, 5*10^18 available on the last day: the program books
-   10 more than it has; a gauge's 1000 in the same denom is left with 990 *)
-Theorem c19_custody_program_refuted : exists ops d, forallb op_wf ops = true /\ run_clean rinit ops = false /\
-  let s := rrun rinit ops in
-  r_bal s d < owed_g d (r_gauges s) /\ holds_C19_custody d (r_bal s d) (r_gauges s) (r_exts s) = false.
-Proof. exact custody_program_refuted. Qed.
-Print Assumptions c19_custody_program_refuted.
+(* the hook after fix b2d3331 (each program distribution in its own ApplyFuncIfNoError): whatever the
+   external programs do - return an error, panic, overdraw - the BeginBlocker succeeds whenever the
+   epoch / gauge step does, and the gauges and epoch records it leaves are exactly those of that
+   step; only a failure of the epoch / gauge step itself drops the whole hook *)
+Theorem c19_hook_isolation : forall now e s,
+  match run_epochs now (r_epochs s) (r_gauges s) (be_farm e) (be_recv e) (r_bal s) with
+  | Ok (es, gs, _, _) => exists s' ps, begin_block now e s = Ok (s', ps) /\ r_gauges s' = gs /\ r_epochs s' = es
+  | Err c => begin_block now e s = Err c
+  | Panic => begin_block now e s = Panic
+  end.
+Proof. exact begin_block_gauges. Qed.
+Print Assumptions c19_hook_isolation.
 
 (* known finding C19-F4: a lend reward program of 1 000 000 units of a token priced 2.0, one day, one
    borrower: DistributeExtRewardLend pays 2 000 000 (a value paid out as an amount); a gauge's
@@ -147,13 +160,16 @@ Theorem c19_share : forall coins total s, 0 <= coins -> 0 < total -> P18 <= s ->
 Proof. exact share_bound. Qed.
 Print Assumptions c19_share.
 
-(* the same through the farming calculation of a gauge: every reward GetFarmingRewardsData returns
-   (plain pool, or master pool with the min(master, child) rule) belongs to a farmer with an
-   eligible value and is within one part in 10^12 of coins * value / total eligible value *)
+(* the same through the farming calculation of a gauge: whenever GetFarmingRewardsData returns a
+   reward (plain pool, or master pool with the min(master, child) rule) the total eligible value is
+   positive, the reward belongs to a farmer of the pool, a farmer without eligible value (nothing
+   farmed in the child pools of a master pool) gets nothing, and the reward is within one part in
+   10^12 of coins * value / total eligible value *)
 Theorem c19_share_farm : forall e coins ps a r, farm_calc e coins = Ok ps -> In (a, r) ps -> 0 <= coins ->
   Forall (fun f => 0 <= snd f) (eligible e) ->
   let total := zsum (map snd (eligible e)) in
-  exists s, In (a, s) (eligible e) /\
+  0 < total /\
+  exists s, In (a, s) (eligible e) /\ (s = 0 -> r = 0) /\
     (P18 <= s -> kf_C19_1 coins total = false -> holds_C19_share coins total s r = true).
 Proof. exact farm_share_bound. Qed.
 Print Assumptions c19_share_farm.
@@ -173,7 +189,7 @@ Print Assumptions c19_share_refuted.
 Example c19_split_example : split 150 11 = Ok [13; 13; 13; 13; 14; 14; 14; 14; 14; 14; 14].
 Proof. vm_compute. reflexivity. Qed.
 
-(* a clean history with two gauges (one swap-fee), a program and two denoms: gauge 2 lives its
+(* a history with two gauges (one swap-fee), a program and two denoms: gauge 2 lives its
    whole life (3 epochs of 33, 33, 34), the custody hypotheses hold and the balances cover *)
 Definition c19_example_ops : list gop :=
   [CreateSwap 1 0 86400; Create 1 100 3 0 0 43200 100 true; ExtCreate 0 3 600 2 1 0 600 true;
@@ -185,9 +201,9 @@ Definition c19_example_ops : list gop :=
    Begin 180000 (mkBenv [FarmPlain [(1, 1000000000000000000)]; FarmErr] [Ok 0; Err 1] [mkXenv 300 [(11, 100, 0); (12, 200, 0)]])].
 Example c19_history_example :
   let s := rrun rinit c19_example_ops in
-  forallb op_wf c19_example_ops = true /\ run_clean rinit c19_example_ops = true /\
+  forallb op_wf c19_example_ops = true /\ forallb no_lend_op c19_example_ops = true /\ run_clean rinit c19_example_ops = true /\
   map g_distributed (r_gauges s) = [47; 100] /\ map g_triggered (r_gauges s) = [3; 3] /\ map g_active (r_gauges s) = [true; false] /\
-  map x_avail (r_exts s) = [1] /\ map x_active (r_exts s) = [true] /\ r_bal s 1 = 0 /\ owed 1 s = 0 /\ r_bal s 3 = 1 /\ owed 3 s = 1.
+  map x_avail (r_exts s) = [0] /\ map x_active (r_exts s) = [true] /\ r_bal s 1 = 0 /\ owed 1 s = 0 /\ r_bal s 3 = 0 /\ owed 3 s = 0.
 Proof. vm_compute. repeat split. Qed.
 
 Example c19_life_example :
@@ -223,10 +239,78 @@ Example c19_swapfee_example :
   = Ok (mkGauge 41 509 5 1 true 0 86400 true 1, 8541, [(1, 166); (2, 333)]).
 Proof. vm_compute. reflexivity. Qed.
 
-(* a safe program step: 3 owners of 100, 200, 300 out of 600, 1000 available over 2 remaining days *)
+(* a program step: 3 owners of 100, 200, 300 out of 600, 1000 available over 2 remaining days *)
 Example c19_program_example :
   let x := mkExt 0 3 1000 true 2 0 50 1 in
   let e := mkXenv 600 [(11, 100, 0); (12, 200, 0); (13, 300, 0)] in
-  ext_safe e x = true /\
+  xenv_wf e = true /\
   ext_tick 100 e 5000 x = Ok (mkExt 0 3 501 true 2 1 86500 1, 4501, [(11, 83); (12, 166); (13, 250)]).
 Proof. vm_compute. split; reflexivity. Qed.
+
+(* regression, former finding C19-F2: a swap-fee gauge holding 500 whose fee transfer fails pays the 500
+   once and books it (deposit 0, distributed 500); the later epochs pay nothing; the other gauge's
+   1000 stay covered (before the fix: 500 paid at every epoch, 500 left against remainders of 1500) *)
+Example c19_swapfee_regression :
+  let ops := [CreateSwap 1 0 86400; Create 1 1000 5 400000 0 129600 1000 true;
+              Begin 10 (mkBenv [] [] []); Begin 50000 (mkBenv [FarmErr; FarmErr] [Ok 500; Err 1] []);
+              Begin 140000 (mkBenv [FarmPlain [(7, 1000000000000000000)]; FarmErr] [Err 1; Err 1] []);
+              Begin 230000 (mkBenv [FarmPlain [(7, 1000000000000000000)]; FarmErr] [Err 1; Err 1] [])] in
+  let s := rrun rinit ops in
+  forallb op_wf ops = true /\ forallb no_lend_op ops = true /\
+  map g_deposit (r_gauges s) = [0; 1000] /\ map g_distributed (r_gauges s) = [500; 0] /\ map g_triggered (r_gauges s) = [1; 0] /\
+  r_bal s 1 = 1000 /\ owed 1 s = 1000.
+Proof. vm_compute. repeat split. Qed.
+
+(* regression, former finding C19-F3: six equal lockers, 5*10^18 available on the last day: each owner
+   gets 833333333333333333, the program books 4999999999999999998 and keeps 2 (before the fix it
+   booked 10 more than it had and a gauge's 1000 in the same denom was left with 990) *)
+Example c19_program_regression :
+  let pop := mkXenv 6000000 [(11,1000000,0);(12,1000000,0);(13,1000000,0);(14,1000000,0);(15,1000000,0);(16,1000000,0)] in
+  let ops := [ExtCreate 0 5 5000000000000000000 1 1 0 5000000000000000000 true; Create 5 1000 3 500000 0 86400 1000 true;
+              Begin 10 (mkBenv [FarmErr] [] [pop]); Begin 86401 (mkBenv [FarmErr] [] [pop])] in
+  let s := rrun rinit ops in
+  forallb op_wf ops = true /\ forallb no_lend_op ops = true /\
+  map x_avail (r_exts s) = [2] /\ r_bal s 5 = 1002 /\ owed 5 s = 1002 /\
+  ext_tick 86401 pop 5000000000000001000 (mkExt 0 5 5000000000000000000 true 1 0 86400 1)
+  = Ok (mkExt 0 5 2 true 1 1 172801 1, 1002,
+        [(11, 833333333333333333); (12, 833333333333333333); (13, 833333333333333333);
+         (14, 833333333333333333); (15, 833333333333333333); (16, 833333333333333333)]).
+Proof. vm_compute. repeat split. Qed.
+
+(* the hook: a locker program of 2^63 (Int64() panics at its first distribution) next to a gauge: at
+   86500 the locker step panics and is rolled back by its own wrapper (program record untouched), the
+   epoch bookkeeping (third epoch counted) and the gauge's state (deactivated after its two epochs) stay *)
+Example c19_hook_example :
+  let pop := mkXenv 1000 [(11, 1000, 0)] in
+  let f := FarmPlain [(1, 1000000000000000000)] in
+  let ops := [ExtCreate 0 3 9223372036854775808 2 1 0 9223372036854775808 true; Create 1 100 2 0 0 43200 100 true;
+              Begin 10 (mkBenv [f] [] [pop]); Begin 20 (mkBenv [f] [] [pop]); Begin 43300 (mkBenv [f] [] [pop])] in
+  let s := rrun rinit ops in
+  let s' := rapply s (Begin 86500 (mkBenv [f] [] [pop])) in
+  begin_steps_ok 86500 (mkBenv [f] [] [pop]) s = [true; false; true; true] /\
+  map g_distributed (r_gauges s') = [100] /\ map g_triggered (r_gauges s') = [2] /\
+  map g_active (r_gauges s) = [true] /\ map g_active (r_gauges s') = [false] /\
+  map e_cur (r_epochs s) = [2] /\ map e_cur (r_epochs s') = [3] /\
+  r_exts s' = r_exts s /\ map x_count (r_exts s') = [0] /\ r_bal s' 3 = 9223372036854775808.
+Proof. vm_compute. repeat split. Qed.
+
+(* the hook, error return (the input of fix b2d3331): a locker program (1 000 000 000 locked, 5 000 000
+   over 5 days), a second locker program created later on an app whose kill switch is then turned
+   on, a vault program.  One day later DistributeExtRewardLocker pays the first program's owner
+   1 000 000 and then returns ErrCircuitBreakerEnabled at the second: the whole locker step is rolled
+   back (nothing paid to 11, records untouched), the vault step after it still runs (21 gets 300).
+   With the switch off the locker step is kept *)
+Example c19_hook_error_example :
+  let pop := mkXenv 1000000000 [(11, 1000000000, 0)] in
+  let vpop := mkXenv 500 [(21, 500, 0)] in
+  let ops := [ExtCreate 0 3 5000000 5 1 0 5000000 true; ExtCreate 0 3 700 1 1 0 700 true; ExtCreate 1 3 900 3 1 0 900 true] in
+  let s := rrun rinit ops in
+  let on := mkBenv [] [] [pop; mkXenvH 0 [] true; vpop] in
+  let off := mkBenv [] [] [pop; mkXenv 0 []; vpop] in
+  begin_steps_ok 86401 on s = [true; false; true; true] /\
+  (exists s', rstep s (Begin 86401 on) = Ok (s', [(3, 21, 300)]) /\
+     map x_avail (r_exts s') = [5000000; 700; 600] /\ map x_count (r_exts s') = [0; 0; 1] /\ r_bal s' 3 = 5001300) /\
+  begin_steps_ok 86401 off s = [true; true; true; true] /\
+  (exists s', rstep s (Begin 86401 off) = Ok (s', [(3, 11, 1000000); (3, 21, 300)]) /\
+     map x_avail (r_exts s') = [4000000; 700; 600] /\ map x_count (r_exts s') = [1; 1; 1] /\ r_bal s' 3 = 4001300).
+Proof. vm_compute. repeat split; eexists; repeat split. Qed.
